@@ -69,6 +69,7 @@ type e4Scenario struct {
 	Ops      []e4Op      `json:"ops,omitempty"`
 	Faults   bool        `json:"faults,omitempty"`
 	Procs    int         `json:"concurrent_processes,omitempty"` // C10: this many resolvers share one cold cache at the same time
+	Reuse    bool        `json:"resolver_reused,omitempty"`      // C10: the resolver first serves another root
 	Strategy int         `json:"strategy"`
 	Sticky   int         `json:"sticky"`
 	PCTDepth int         `json:"pct_depth"`
@@ -458,6 +459,20 @@ func c10Gen(r *rand.Rand, tier string) any {
 	if !sc.Faults && r.IntN(4) == 0 {
 		sc.Procs = 2 + r.IntN(2)
 	}
+	// the root may name one project twice, under two names and at two versions
+	if len(sc.Root) > 0 && r.IntN(5) == 0 {
+		q := sc.Root[r.IntN(len(sc.Root))]
+		for pi := range sc.Projects {
+			if pr := &sc.Projects[pi]; pr.path(sc) == q.Path && len(pr.Versions) > 1 {
+				v := pr.Versions[r.IntN(len(pr.Versions))].Version
+				if v != q.Version {
+					sc.Root = append(sc.Root, e4Req{Name: fmt.Sprintf("again%d", len(sc.Root)), Path: q.Path, Version: v})
+				}
+			}
+		}
+	}
+	// a resolver that first served another root (a long-lived process: get, then build)
+	sc.Reuse = r.IntN(4) == 0
 	// rarely, a requirement that names a version that does not exist
 	if r.IntN(20) == 0 && len(sc.Projects) > 0 {
 		p := &sc.Projects[r.IntN(len(sc.Projects))]
@@ -676,6 +691,11 @@ func c10Exec(scAny any, c *simcheck.Ctx) *simcheck.Violation {
 		// the cache they left behind must serve a later process correctly
 		return check("warm cache left by concurrent processes", sc.Root, "cacheC", false)
 	}
+	if sc.Reuse {
+		if v := c10Reuse(e, sc, c, want, resolvable); v != nil {
+			return v
+		}
+	}
 	if v := check("cold cache", sc.Root, "cache1", false); v != nil {
 		return v
 	}
@@ -708,6 +728,71 @@ func c10Exec(scAny any, c *simcheck.Ctx) *simcheck.Violation {
 		c.St.Count("partially_filled_caches", 1)
 	}
 	return check("partially filled cache, permuted declaration order", permuted(2), "cache2", false)
+}
+
+// c10Reuse: one resolver answers for two different roots in turn; what it memoised for the
+// first must not change the answer for the second.
+func c10Reuse(e *e4Run, sc *e4Scenario, c *simcheck.Ctx, want map[string]string, resolvable bool) *simcheck.Violation {
+	t := c.Tapes.Get("reuse")
+	var other []e4Req
+	for _, q := range sc.Root {
+		switch t.Intn(3) {
+		case 0: // dropped
+		case 1:
+			other = append(other, q)
+		default: // the same project at another of its versions
+			for pi := range sc.Projects {
+				if pr := &sc.Projects[pi]; pr.path(sc) == q.Path {
+					q.Version = pr.Versions[t.Intn(len(pr.Versions))].Version
+				}
+			}
+			other = append(other, q)
+		}
+	}
+	if len(sc.Projects) > 0 && t.Intn(2) == 0 {
+		pr := &sc.Projects[t.Intn(len(sc.Projects))]
+		dup := false
+		for _, q := range other {
+			dup = dup || q.Path == pr.path(sc)
+		}
+		if !dup {
+			other = append(other, e4Req{Name: "extra", Path: pr.path(sc), Version: pr.Versions[t.Intn(len(pr.Versions))].Version})
+		}
+	}
+	wantOther, okOther := sc.modelBuildList(other)
+	var got1, got2 map[string]string
+	var err1, err2 error
+	s, _, _ := e.call("cacheR", false, func(res *Resolver) error {
+		got1, err1 = BuildList(context.Background(), sc.config(other), res)
+		got2, err2 = BuildList(context.Background(), sc.config(sc.Root), res)
+		return nil
+	})
+	if v := simFailure(s); v != nil {
+		v.Msg = "one resolver, two roots: " + v.Msg
+		return v
+	}
+	c.St.Count("resolver_reused_for_second_root", 1)
+	for _, x := range []struct {
+		what string
+		got  map[string]string
+		err  error
+		want map[string]string
+		ok   bool
+	}{{"first root", got1, err1, wantOther, okOther}, {"second root on the same resolver", got2, err2, want, resolvable}} {
+		if x.err != nil {
+			if !x.ok {
+				continue
+			}
+			return simcheck.V("buildlist-error", "one resolver, two roots: %s: resolution failed although every reachable requirement exists and no fault was injected: %v", x.what, x.err)
+		}
+		if !x.ok {
+			return simcheck.V("buildlist-accepts-missing", "one resolver, two roots: %s: a reachable requirement names a version that does not exist, yet resolution succeeded", x.what)
+		}
+		if mapString(x.got) != mapString(x.want) {
+			return simcheck.V("buildlist-wrong", "one resolver, two roots: %s resolved {%s}, not the minimal-version-selection solution {%s}", x.what, mapString(x.got), mapString(x.want))
+		}
+	}
+	return nil
 }
 
 func e4Simplify(scAny any) []any {
@@ -752,6 +837,11 @@ func e4Simplify(scAny any) []any {
 	if sc.Faults {
 		c := clone()
 		c.Faults = false
+		out = append(out, c)
+	}
+	if sc.Reuse {
+		c := clone()
+		c.Reuse = false
 		out = append(out, c)
 	}
 	return out
